@@ -23,6 +23,12 @@ def corpus():
         for at in (0, 1, 2, 3):
             out.append({'case': {'polls': [None] * k + [at] + [None, None]}, 'stream': 'interleaving'})
     out.append({'case': {'polls': [None, None, None]}, 'stream': 'interleaving'})
+    # the accept loop polled with a different waker on later polls (the future moved to another task): the interrupt must wake the latest one
+    for k in range(1, 4):
+        for at in (0, 1, 2, 3):
+            for ws in ([0] * k + [1, 1, 1], [0, 1, 0, 1, 0, 1, 0], [1] + [0] * (k + 2)):
+                out.append({'case': {'polls': [None] * k + [at] + [None, None], 'wakers': ws[:k + 3]}, 'stream': 'interleaving'})
+    out.append({'case': {'wg': ['add', 'poll', 'drop', 'poll']}}); out.append({'case': {'wg': ['add', 'add', 'drop', 'poll', 'done', 'poll']}})
     out.append({'case': {'wg': ['poll']}}); out.append({'case': {'wg': ['add', 'poll', 'done', 'poll']}})
     out.append({'case': {'wg': ['add', 'add', 'done', 'poll', 'done', 'poll', 'poll']}})
     return out
@@ -36,9 +42,9 @@ def generate(rng, tier):
         for _ in range(rng.choice([1, 3, 6, 12, 20])):
             r = rng.random()
             if r < 0.35: ops.append('add'); live += 1
-            elif r < 0.65 and live: ops.append('done'); live -= 1
+            elif r < 0.65 and live: ops.append(rng.choice(['done', 'done', 'drop'])); live -= 1          # 'drop': the session task unwound, its handle was dropped
             else: ops.append('poll')
-        while live and rng.random() < 0.7: ops.append('done'); live -= 1
+        while live and rng.random() < 0.7: ops.append(rng.choice(['done', 'drop'])); live -= 1
         ops.append('poll')
         out.append({'case': {'wg': ops}, 'stream': 'waitgroup'})
     return out
@@ -50,7 +56,7 @@ def spec_check(case, out):
         live, want = 0, []
         for o in case['wg']:
             if o == 'add': live += 1
-            elif o == 'done': live -= 1
+            elif o in ('done', 'drop'): live -= 1
             else: want.append(live == 0)
         return None if out['polls'] == want else f'wait group polls {out["polls"]}, sessions alive say {want}'
     ps, res = case['polls'], out['polls']
@@ -70,7 +76,9 @@ def judge(case, out, m):
     v = []
     bad = spec_check(case, out)
     if bad: v.append(('violation', bad))
-    if m is not None and m.get('model', {}).get('polls') != out.get('polls'):
+    # `woken` is the flag of the waker THIS poll used; when the poll returns Ready(None) who else was woken (a stale waker of an earlier task) is immaterial
+    norm = lambda ps: [({'ready_none': True} if isinstance(p, dict) and p.get('ready_none') else p) for p in (ps or [])]
+    if m is not None and norm(m.get('model', {}).get('polls')) != norm(out.get('polls')):
         v.append(('disagree', f'impl {out.get("polls")} model {m.get("model", {}).get("polls")}'))
     return v
 
@@ -80,7 +88,7 @@ def nontrivial(case):
         live = 0
         for o in case['wg']:
             if o == 'add': live += 1
-            elif o == 'done': live -= 1
+            elif o in ('done', 'drop'): live -= 1
             elif live: return True
         return False
     return any(p in (1, 2) for p in case['polls'])
